@@ -110,7 +110,7 @@ ATOMS_U = [("e2", C(chr(0xE9))), ("arrow3", C(chr(0x2192))), ("emoji4", C(chr(0x
 def fam_ops(tier, seed):
     out = []
     env = {"v": V_DEF}
-    rnd = random.Random(seed + 3)
+    rnd = random.Random((seed if tier == "thorough" else 0) + 3)
     for sz in (1, 2, 3, 4):
         ts = trees(sz)
         if sz == 4:
@@ -210,7 +210,7 @@ def fam_munch(tier, seed):
     hand.append(("succ_any_eoi", [C("a"), C("b"), cat(C("a"), ANY, EOI), cat(C("a"), ANY, C("c"))]))
     for n, rs in hand:
         out.append(Witness("munch_" + n, "munch", Def(top=rules(*rs))))
-    n_rand = 22 if tier == "quick" else 1500
+    n_rand = 200 if tier == "quick" else 1500
     rnd = random.Random(1000 + (seed if tier == "thorough" else 0))
     for i in range(n_rand):
         out.append(Witness("munch_r%d_%d" % (seed if tier == "thorough" else 0, i), "munch",
@@ -294,21 +294,22 @@ def fam_rulesets(tier, seed):
     out.append(Witness("rulesets_init_only", "rulesets", Def(sets=[("Init", rules(S("ab"), C("a")))])))
     out.append(Witness("rulesets_init_empty", "rulesets",
                        Def(sets=[("Init", []), ("A", rules(*base["A"]))])))
-    if tier == "thorough":
+    if True:
         keys = sorted(base)
-        rnd = random.Random(seed + 7)
+        rnd = random.Random((seed if tier == "thorough" else 0) + 7)
         seen = set(orders)
-        for i in range(170):
+        for i in range(170 if tier == "thorough" else 25):
             o = tuple(rnd.sample(keys, rnd.randint(1, 4)))
             if o in seen:
                 continue
             seen.add(o)
             out.append(mk("t_" + "_".join(o), o))
-        for i in range(30):
+        for i in range(30 if tier == "thorough" else 25):
             sets = [("Init", rules(*rand_rules(rnd, rnd.randint(1, 3))))]
             for j in range(rnd.randint(1, 3)):
                 sets.append(("R%d" % j, rules(*rand_rules(rnd, rnd.randint(0, 3)))))
-            out.append(Witness("rulesets_rand_%d_%d" % (seed, i), "rulesets", Def(sets=sets)))
+            out.append(Witness("rulesets_rand_%d_%d" % (seed if tier == "thorough" else 0, i), "rulesets",
+                               Def(sets=sets)))
     return out
 
 
@@ -394,9 +395,9 @@ def fam_rctx(tier, seed):
     out.append(Witness("rctx_with_vars", "rctx", Def(top=[
         ("let", "d", SET(("0", "9"))), Rule(cat(plus(V("d")), C(".")), ctx=alt(diff(ANY, C(".")), EOI)),
         Rule(plus(V("d"))), Rule(S(".."))])))
-    if tier == "thorough":
-        rnd = random.Random(seed + 11)
-        for i in range(260):
+    if True:
+        rnd = random.Random((seed if tier == "thorough" else 0) + 11)
+        for i in range(260 if tier == "thorough" else 100):
             rs = []
             n = rnd.randint(2, 4)
             for j in range(n):
@@ -409,7 +410,7 @@ def fam_rctx(tier, seed):
                     if rnd.random() < 0.2:
                         c = alt(c, EOI)
                 rs.append(Rule(r, ctx=c))
-            out.append(Witness("rctx_rand_%d_%d" % (seed, i), "rctx", Def(top=rs)))
+            out.append(Witness("rctx_rand_%d_%d" % (seed if tier == "thorough" else 0, i), "rctx", Def(top=rs)))
     return out
 
 
@@ -438,9 +439,9 @@ def fam_eoi(tier, seed):
     ]
     for n, s in sets:
         out.append(Witness("eoi_" + n, "eoi", Def(sets=s)))
-    if tier == "thorough":
-        rnd = random.Random(seed + 13)
-        for i in range(48):
+    if True:
+        rnd = random.Random((seed if tier == "thorough" else 0) + 13)
+        for i in range(48 if tier == "thorough" else 30):
             rs = []
             for j in range(rnd.randint(2, 4)):
                 r = rand_re(rnd, 2)
@@ -451,7 +452,7 @@ def fam_eoi(tier, seed):
                 rs.append(Rule(r))
             if rnd.random() < 0.3:
                 rs.append(Rule(EOI))
-            out.append(Witness("eoi_rand_%d_%d" % (seed, i), "eoi", Def(top=rs)))
+            out.append(Witness("eoi_rand_%d_%d" % (seed if tier == "thorough" else 0, i), "eoi", Def(top=rs)))
     return out
 
 
@@ -507,11 +508,11 @@ def fam_classes(tier, seed):
     out.append(Witness("classes_mixed_state", "classes", Def(top=rules(
         cat(diff(SET(("a", "k")), SET(("c", "e"))), C("1")), cat(C("d"), C("2")), cat(ANY, C("3")),
         cat(SET(("j", "p")), C("4"))))))
-    n_rand = 0 if tier == "quick" else 520
-    rnd = random.Random(seed + 17)
+    n_rand = 100 if tier == "quick" else 520
+    rnd = random.Random((seed if tier == "thorough" else 0) + 17)
     # the class algebra over a small universe: canonical and scrambled spellings of subsets of
     # {a..h}, combined as A # B, (A | B) # C, A # (B | C), (A # B) # C, (A | B)
-    srnd = random.Random(seed + 23)
+    srnd = random.Random((seed if tier == "thorough" else 0) + 23)
     n_sys = 160 if tier == "quick" else 2000
     shapes = ["diff", "union_diff", "diff_union", "diff_diff", "union", "union_union_diff"]
     made = 0
@@ -533,7 +534,7 @@ def fam_classes(tier, seed):
         e = rand_class(rnd, 3)
         if not approx_class(e):
             continue        # an empty class is outside the properties' precondition
-        out.append(single("classes_rand_%d_%d" % (seed, i), "classes",
+        out.append(single("classes_rand_%d_%d" % (seed if tier == "thorough" else 0, i), "classes",
                           cat(e, C("!")) if rnd.random() < 0.5 else e))
         i += 1
     return out
